@@ -801,3 +801,61 @@ func fieldStoreAt(al *ssa.Alloc, field string, at ssa.Instruction) ssa.Value {
 	}
 	return best.Val
 }
+
+// resolveAcross: where the value comes from, followed out of the frame when that is unambiguous: a parameter of a
+// function with exactly one (static) call stands for the argument of that call; a field read from a record stands for
+// the single value the record's field was filled with — in place, or inside the builder of the module that handed the
+// record out (marks := mark(…); marks.seen).  The value itself when it cannot be followed.
+func resolveAcross(c *core.Ctx, v ssa.Value, depth int) ssa.Value {
+	if v == nil || depth > 6 {
+		return v
+	}
+	v = an.Origin(v)
+	switch x := an.Strip(v).(type) {
+	case *ssa.Parameter:
+		fn := x.Parent()
+		sites := c.P.Callers(fn)
+		if len(sites) != 1 {
+			return v
+		}
+		cc := sites[0].Common()
+		if cc.IsInvoke() || cc.StaticCallee() != fn {
+			return v
+		}
+		for k, q := range fn.Params {
+			if q == x && k < len(cc.Args) {
+				return resolveAcross(c, cc.Args[k], depth+1)
+			}
+		}
+	case *ssa.Field:
+		if st, ok := x.X.Type().Underlying().(*types.Struct); ok {
+			if r := recordFieldAcross(c, x.X, st.Field(x.Field).Name(), depth); r != nil {
+				return r
+			}
+		}
+	case *ssa.UnOp:
+		if fa, ok := x.X.(*ssa.FieldAddr); ok && x.Op == token.MUL {
+			if st, ok := an.Deref(fa.X.Type()).Underlying().(*types.Struct); ok {
+				base := fa.X
+				// a by-value record parameter spilled into a cell, or a local assigned once as a whole
+				if al, isAlloc := base.(*ssa.Alloc); isAlloc {
+					if whole := an.SingleStore(al); whole != nil {
+						if r := recordFieldAcross(c, whole, st.Field(fa.Field).Name(), depth); r != nil {
+							return r
+						}
+					}
+				}
+			}
+		}
+	}
+	return v
+}
+
+func recordFieldAcross(c *core.Ctx, rec ssa.Value, field string, depth int) ssa.Value {
+	base := resolveAcross(c, rec, depth+1)
+	vals := literalStores(c, base)[field]
+	if len(vals) == 1 {
+		return resolveAcross(c, vals[0], depth+1)
+	}
+	return nil
+}
